@@ -192,14 +192,20 @@ def has_scheme (s : String) : Bool := hasSchemeChars s.toList
 /-- cut at the first `'?'` or `'#'` -/
 def cutQueryFragment (cs : List Char) : List Char := cs.takeWhile (fun c => !(c == '?' || c == '#'))
 
-/-- `urlsplit(s).path` for inputs without netloc (after scheme removal the rest must not start
-with `//`). -/
+/-- `_splitnetloc(url, 2)` when the url (scheme removed) starts with `//`: the authority runs up
+to the first `/`, `?` or `#`.  (A netloc with `[`/`]` or non-ASCII characters can make CPython
+raise `ValueError`; such inputs are outside the model's domain.) -/
+def dropNetloc : List Char → List Char
+  | '/' :: '/' :: rest => rest.dropWhile (fun c => !(c == '/' || c == '?' || c == '#'))
+  | u => u
+
+/-- `urlsplit(s).path` -/
 def urlsplitPathChars (cs : List Char) : List Char :=
   let u := cleanUrl cs
   let u := match schemePrefix u with
     | some pre => u.drop (pre.length + 1)
     | none => u
-  cutQueryFragment u
+  cutQueryFragment (dropNetloc u)
 
 def urlsplit_path (s : String) : String := String.ofList (urlsplitPathChars s.toList)
 
